@@ -207,7 +207,7 @@ func (b Bytes) With(value Value) Set {
 func (b Bytes) Without(value Value) Set {
 	if pos, byt, ok := isBytesTuple(value); ok {
 		if i := b.index(pos); i >= 0 && i < len(b.b) && byt == b.b[i] {
-			if pos == b.offset+i {
+			if i == len(b.b)-1 {
 				if bytes := b.b[:i]; len(bytes) > 0 {
 					return Bytes{b: bytes, offset: b.offset}
 				}
